@@ -61,6 +61,8 @@ FIELD_INFO = {
     "num":   {"att": "num", "name": "num", "keys": ["num"], "type": "anynum"},
     "camF":  {"att": "camF", "name": "camF", "keys": ["camF", "camf", "CAMF"], "type": "int"},
     "cdep":  {"att": "cdep", "name": "cdep", "keys": ["cdep"], "type": "int"},
+    "camA":  {"att": "camA", "name": "AlF", "keys": ["AlF", "alf", "ALF", "camA", "cama"], "type": "int"},
+    "adep":  {"att": "adep", "name": "adep", "keys": ["adep"], "type": "int"},
     "nkind": {"att": "nkind", "name": "nkind", "keys": ["nkind"], "type": "str"},
     "tt":    {"att": "tt", "name": "tt", "keys": ["tt"], "type": "int"},
     "hp":    {"att": "hp", "name": "hp", "keys": ["hp"], "type": "int"},
@@ -71,7 +73,7 @@ FIELD_INFO = {
     "tb":    {"att": "tb", "name": "tb", "keys": ["tb"], "type": "int"},
     "td":    {"att": "td", "name": "td", "keys": ["td"], "type": "int"},
 }
-ORDER = ["req", "opt", "its", "pos", "fin", "ali", "hid", "lf", "mreq", "exo", "total", "w", "num", "camF"]
+ORDER = ["req", "opt", "its", "pos", "fin", "ali", "hid", "lf", "mreq", "exo", "total", "w", "num", "camF", "camA"]
 
 
 def source(plan):
@@ -152,6 +154,10 @@ def source(plan):
         # a case-insensitive field whose name has capitals, and a property that depends on it
         L += ["    camF: int = Field(case_insensitive=True, default=1)", "    @property", "    @Field(dependencies=['camF'])",
               "    def cdep(self) -> int:", "        return self.camF + 7"]
+    if "camA" in fs:
+        # ... and one that also has an alias (the key of the data), named by its attribute in the dependency
+        L += ["    camA: int = Field(case_insensitive=True, alias='AlF', default=1)", "    @property", "    @Field(dependencies=['camA'])",
+              "    def adep(self) -> int:", "        return self.camA + 9"]
     if "num" in fs:
         # values that compare equal need not be the same value (1 == True == 1.0): the dependant tells them apart
         L.insert(1, "from typing import Any")
@@ -390,7 +396,7 @@ def read_attr(inst, att):
     except AttributeError:
         return _MISSING
     except Exception:  # noqa  a property body computing over already-broken data; the broken field itself is reported
-        if att in ("total", "w", "w2", "hsum", "nkind", "tt", "tb", "td", "ratio", "dbl", "cdep", "hp", "wd", "r2"):
+        if att in ("total", "w", "w2", "hsum", "nkind", "tt", "tb", "td", "ratio", "dbl", "cdep", "adep", "hp", "wd", "r2"):
             return _MISSING
         raise
 
@@ -404,7 +410,7 @@ class View:
         self.extra = {}
         is_schema = plan["base"] == "schema"
         names = {}
-        all_kinds = list(plan["fields"]) + (["w2"] if "w" in plan["fields"] else []) + (["hsum"] if plan.get("hsum") else []) + (["nkind"] if "num" in plan["fields"] else []) + (["tt"] if plan.get("tt") else []) + (["tb", "td"] if plan.get("diamond") else []) + (["cdep"] if "camF" in plan["fields"] else []) + (["hp"] if plan.get("hp") else []) + (["wd"] if plan.get("wd") else []) + (["ratio", "r2"] if plan.get("ratio") else []) + (["dbl"] if plan.get("dbl") else [])
+        all_kinds = list(plan["fields"]) + (["w2"] if "w" in plan["fields"] else []) + (["hsum"] if plan.get("hsum") else []) + (["nkind"] if "num" in plan["fields"] else []) + (["tt"] if plan.get("tt") else []) + (["tb", "td"] if plan.get("diamond") else []) + (["cdep"] if "camF" in plan["fields"] else []) + (["adep"] if "camA" in plan["fields"] else []) + (["hp"] if plan.get("hp") else []) + (["wd"] if plan.get("wd") else []) + (["ratio", "r2"] if plan.get("ratio") else []) + (["dbl"] if plan.get("dbl") else [])
         for k in all_kinds:
             names[FIELD_INFO[k]["name"]] = k
         if is_schema:
@@ -434,7 +440,7 @@ def check_invariants(plan, inst, initial, res, opname, field, current=True, touc
     v = View(plan, inst)
     fs = plan["fields"]
     is_schema = plan["base"] == "schema"
-    props = {"total", "w", "w2", "hsum", "nkind", "tt", "tb", "td", "ratio", "dbl", "cdep", "hp", "wd", "r2"}
+    props = {"total", "w", "w2", "hsum", "nkind", "tt", "tb", "td", "ratio", "dbl", "cdep", "adep", "hp", "wd", "r2"}
     # I1 conformance of every present field, in both views
     for k, val in v.keys.items():
         if not conforms(k, val):
@@ -457,7 +463,7 @@ def check_invariants(plan, inst, initial, res, opname, field, current=True, touc
             out.append(("I3", "class", "instance of an immutable class changed"))
     # I4 key view and attribute view agree
     if is_schema:
-        for k in list(fs) + (["w2"] if "w" in fs else []) + (["hsum"] if plan.get("hsum") else []) + (["nkind"] if "num" in fs else []) + (["tt"] if plan.get("tt") else []) + (["tb", "td"] if plan.get("diamond") else []) + (["cdep"] if "camF" in plan["fields"] else []) + (["hp"] if plan.get("hp") else []) + (["wd"] if plan.get("wd") else []) + (["ratio", "r2"] if plan.get("ratio") else []) + (["dbl"] if plan.get("dbl") else []):
+        for k in list(fs) + (["w2"] if "w" in fs else []) + (["hsum"] if plan.get("hsum") else []) + (["nkind"] if "num" in fs else []) + (["tt"] if plan.get("tt") else []) + (["tb", "td"] if plan.get("diamond") else []) + (["cdep"] if "camF" in plan["fields"] else []) + (["adep"] if "camA" in plan["fields"] else []) + (["hp"] if plan.get("hp") else []) + (["wd"] if plan.get("wd") else []) + (["ratio", "r2"] if plan.get("ratio") else []) + (["dbl"] if plan.get("dbl") else []):
             if k == "hid":
                 if "hid" in v.keys:
                     out.append(("I4", k, "no_output field present in the key view"))
@@ -492,6 +498,9 @@ def check_invariants(plan, inst, initial, res, opname, field, current=True, touc
     if "camF" in fs and is_schema and "camF" in v.keys and conforms("camF", v.keys["camF"]):
         if "cdep" in v.keys and v.keys["cdep"] != v.keys["camF"] + 7:
             out.append(("I5", "cdep", f"cdep={v.keys['cdep']!r} but camF+7={v.keys['camF'] + 7!r}"))
+    if "camA" in fs and is_schema and "camA" in v.keys and conforms("camA", v.keys["camA"]):
+        if "adep" in v.keys and v.keys["adep"] != v.keys["camA"] + 9:
+            out.append(("I5", "adep", f"adep={v.keys['adep']!r} but camA+9={v.keys['camA'] + 9!r}"))
     if plan.get("hp") and is_schema and "hid" in v.attrs and conforms("hid", v.attrs["hid"]) and "pos" in v.keys and conforms("pos", v.keys["pos"]):
         want = v.attrs["hid"] + v.keys["pos"] + 1000
         assigning = opname in ("setattr", "setitem", "update_m", "update_kw", "ior", "update_inst", "ior_inst", "init")
